@@ -187,6 +187,9 @@ def run(tier, seed):
         # tracked table: counts = N x per-shot counts
         exp = collections.Counter()
         for key, outcome in b["trk"]:
+            for spec_name, text in qrender.TYPE_TEXT.items():       # a generic class is named by its instantiation in the table
+                if key.startswith(spec_name + "."):
+                    key = text + key[len(spec_name):]
             exp[(key, outcome)] += N
         got = collections.Counter()
         cur = None
